@@ -7,11 +7,11 @@ namespace Shelx.Drv.C02
 open Shelx.C02
 
 def kindStr : Kind → String
-  | .int => "int" | .num => "num" | .big => "big" | .dnum => "dnum" | .word => "word" | .sym => "sym"
+  | .enum => "enum" | .int => "int" | .num => "num" | .big => "big" | .dnum => "dnum" | .word => "word" | .sym => "sym"
 
 def kindOf (s : String) : Except String Kind :=
   match s with
-  | "int" => .ok .int | "num" => .ok .num | "big" => .ok .big | "dnum" => .ok .dnum
+  | "enum" => .ok .enum | "int" => .ok .int | "num" => .ok .num | "big" => .ok .big | "dnum" => .ok .dnum
   | "word" => .ok .word | "sym" => .ok .sym
   | _ => err s!"C02: unknown token kind {s}"
 
